@@ -22,7 +22,7 @@ package faucetsc
 //@   requires un != nil && gn != nil && t != nil && gn.FaucetConfig != nil
 //@   ensures result0 ==> result1 == nil
 //@   ensures !result0 ==> result1 != nil
-//@   ensures result0 ==> asked(t, gn) <= $bal[gn.ID]
+//@   ensures result0 ==> asked(t, gn) <= $bal[acct(gn.ID)]
 //@   ensures result0 ==> asked(t, gn) + un.Used <= gn.PeriodicLimit
 //@   ensures result0 ==> asked(t, gn) + gn.Used <= gn.GlobalLimit
 //@   modifies nothing
@@ -83,7 +83,7 @@ package faucetsc
 //@   requires fc != nil && t != nil && gn != nil && gn.FaucetConfig != nil
 //@   dead-paths 2 -- the two AddCoin overflow returns after a successful validPourRequest (sums already bounded by the limits)
 //@   at-call AddTransfer assert transfer.ClientID == t.ToClientID && transfer.ToClientID == t.ClientID
-//@   at-call AddTransfer assert[balance] transfer.Amount <= $bal[gn.ID]
+//@   at-call AddTransfer assert[balance] transfer.Amount <= $bal[acct(gn.ID)]
 //@   at-call AddTransfer assert[periodic-limit] transfer.Amount + user.Used <= gn.PeriodicLimit
 //@   at-call AddTransfer assert[global-limit] transfer.Amount + gn.Used <= gn.GlobalLimit
 //@   ensures result1 == nil ==> $ntr == old($ntr) + 1 && $nsaved == old($nsaved) + 2
